@@ -28,6 +28,7 @@ type c05Params struct {
 	Kind       string
 	Seed       uint64
 	Hook       int
+	Reuse      bool // outbound only: the hostile input hits the second connection of a reused fsm object
 }
 
 var c05Kinds = []string{"random", "typed", "mut-open", "mut-update", "mut-notif", "mut-keepalive", "flood", "half-close", "open-edge", "lengths", "pair"}
@@ -147,7 +148,12 @@ func c05World(t *testing.T, p c05Params) rt.Result {
 			decodeLikeAPlugin(body)
 			return nil
 		}
-		s := bring(w, ps, p.Dir, p.State, []uint16{90, 0, 3}[r.IntN(3)])
+		var s *sess
+		if p.Reuse && p.Dir == "out" {
+			s = bringReused(w, ps, p.State, []uint16{90, 0, 3}[r.IntN(3)])
+		} else {
+			s = bring(w, ps, p.Dir, p.State, []uint16{90, 0, 3}[r.IntN(3)])
+		}
 		if s == nil {
 			return
 		}
@@ -371,6 +377,7 @@ func TestC05(t *testing.T) {
 		}
 		r := c.Rand("c05", i)
 		p := c05Params{Dir: allDirs[r.IntN(2)], State: allStates[r.IntN(3)], Kind: c05Kinds[i%len(c05Kinds)], Seed: uint64(i)*2862933555777941757 + c.Seed, Hook: hookMode(r)}
+		p.Reuse = p.Dir == "out" && r.IntN(3) == 0
 		runCase(t, "streams", i, p, func(t *testing.T) rt.Result { return c05World(t, p) })
 	}
 	m := c.N(1500, 40000)
